@@ -25,7 +25,7 @@ preparation, Fourier · Fourier† = 1), for every well-formed circuit `l` and *
 whose grid is the optimised grid (whatever topological order `DAG_to_list` picks):
 `sem f out = sem f l`. -/
 theorem optimize_sem {M : Type} [Monoid M] (f : Cmd → M)
-    (hcomm : ∀ a b, ¬ dep a b → f a * f b = f b * f a) (L : Lawful f) (B : Nat)
+    (hcomm : ∀ a b, ¬ dep a b → f a * f b = f b * f a) (L : Lawful (fun r => r.length = 1) f) (B : Nat)
     (l out : List Cmd) (hwf : ∀ c ∈ l, WFc c) (hout : ∀ c ∈ out, c.wires ≠ [])
     (hrows : ∀ w, gridRow out w = optRow B (gridRow l w)) : sem f out = sem f l :=
   optGrid_sem f hcomm WFc (fun _ h => h.2) (tryMerge B) (tryMerge_ok L B) l out hwf hout hrows
@@ -33,7 +33,7 @@ theorem optimize_sem {M : Type} [Monoid M] (f : Cmd → M)
 /-- the same, through the executable checker the harness runs on every list the real optimiser
 returns -/
 theorem optimize_checked_sem {M : Type} [Monoid M] (f : Cmd → M)
-    (hcomm : ∀ a b, ¬ dep a b → f a * f b = f b * f a) (L : Lawful f) (B : Nat)
+    (hcomm : ∀ a b, ¬ dep a b → f a * f b = f b * f a) (L : Lawful (fun r => r.length = 1) f) (B : Nat)
     (l out : List Cmd) (hwf : ∀ c ∈ l, WFc c) (h : isOptOutput B l out = true) :
     sem f out = sem f l :=
   optimize_sem f hcomm L B l out hwf (isOptOutput_sound h).1 (isOptOutput_sound h).2
@@ -41,7 +41,7 @@ theorem optimize_checked_sem {M : Type} [Monoid M] (f : Cmd → M)
 /-- the optimised grid is always the grid of some list (the merge loops never create a cycle), and
 that list has the meaning of the input -/
 theorem optimize_linearisable {M : Type} [Monoid M] (f : Cmd → M)
-    (hcomm : ∀ a b, ¬ dep a b → f a * f b = f b * f a) (L : Lawful f) (B : Nat)
+    (hcomm : ∀ a b, ¬ dep a b → f a * f b = f b * f a) (L : Lawful (fun r => r.length = 1) f) (B : Nat)
     (l : List Cmd) (hwf : ∀ c ∈ l, WFc c) :
     ∃ out, (∀ w, gridRow out w = optRow B (gridRow l w)) ∧ sem f out = sem f l :=
   let ⟨out, h1, h2, _⟩ := optGrid_linearisable f hcomm WFc (tryMerge B) (tryMerge_ok L B) l hwf
@@ -52,11 +52,11 @@ theorem optimize_linearisable {M : Type} [Monoid M] (f : Cmd → M)
 Proved for every class except those in `knownUnlawful` (= `MZgate`, which inherits `Gate.merge`
 although its first parameter is not additive, see `mzgate_merge_counterexample`); missing hypothesis
 for the full statement: `a.cls ∉ knownUnlawful`. -/
-theorem merge_sound_partial {M : Type} [Monoid M] (f : Cmd → M) (L : Lawful f) (a b : Cmd)
-    (hr : a.regs = b.regs) (hda : a.deps = []) (hdb : b.deps = []) (hK : a.cls ∉ knownUnlawful) :
+theorem merge_sound_partial {M : Type} [Monoid M] (f : Cmd → M) (dom : List Nat → Prop)
+    (L : Lawful dom f) (a b : Cmd) (hdom : dom a.regs) (hr : a.regs = b.regs) (hda : a.deps = []) (hdb : b.deps = []) (hK : a.cls ∉ knownUnlawful) :
     (opMerge a b = .identity → f a * f b = 1) ∧
     (∀ op, opMerge a b = .merged op → ∀ i, f a * f b = f { op with id := i, regs := a.regs }) :=
-  ⟨(opMerge_sound L a b hr hda hdb hK).1, fun op h => ((opMerge_sound L a b hr hda hdb hK).2 op h).2⟩
+  ⟨(opMerge_sound L a b hdom hr hda hdb hK).1, fun op h => ((opMerge_sound L a b hdom hr hda hdb hK).2 op h).2⟩
 
 /-- the unlawful class is out of reach of the optimiser (`ns = 2`), so `optimize_sem` needs no
 assumption about it -/
@@ -189,7 +189,7 @@ example : isOptOutput 12 ex exOut = true ∧ (∀ c ∈ ex, WFc c) ∧ exOut.len
 transformers on one rational amplitude per mode: translations, scalings, overwriting preparations —
 a non-commutative monoid), instantiated at the circuit above -/
 example : sem Toy.f exOut = sem Toy.f ex :=
-  optimize_checked_sem Toy.f Toy.f_comm Toy.lawful 12 ex exOut (by decide +kernel) (by decide +kernel)
+  optimize_checked_sem Toy.f Toy.f_comm (Toy.lawful.mono fun _ _ => trivial) 12 ex exOut (by decide +kernel) (by decide +kernel)
 
 /-- a list in which the two rotations were *not* merged, or merged to the wrong angle, is rejected -/
 example : isOptOutput 12 ex ex = false ∧
